@@ -514,3 +514,121 @@ Proof. vm_compute. reflexivity. Qed.
    SP is never entitled to nothing under them (with a store) *)
 Definition has_always_row (m : ecmap) : bool :=
   existsb (fun r => rawkey_eqb (fst r) (true, [[]]) && nonempty (fst (snd r))) m.
+
+(* ---------- the suggested repair of Server.setup_assertion ------------------- *)
+Lemma pget_err {A} (sel : spec -> option A) p sp e : pget sel p sp = Err e -> e = TypeError.
+Proof.
+  unfold pget. destruct p as [[|x R]|]; try discriminate.
+  set (R0 := x :: R).
+  destruct (lookup sp R0) as [[s|]|].
+  - destruct (sel s); [discriminate|].
+    destruct (lookup DEFAULT R0) as [[s'|]|]; try discriminate. intros H; injection H as H; congruence.
+  - intros H; injection H as H; congruence.
+  - destruct (lookup DEFAULT R0) as [[s'|]|]; try discriminate. intros H; injection H as H; congruence.
+Qed.
+
+Lemma TypeError_not_MissingValue : TypeError <> MissingValue.
+Proof. cbv. discriminate. Qed.
+
+Lemma ec_attrs_mono ecs req row x : In x (ec_attrs ecs [] row) -> In x (ec_attrs ecs req row).
+Proof.
+  destruct row as [[b ks] [atlist onr]]. unfold ec_attrs.
+  assert (Hsel : In x (if onr then filter (fun a => mem_str a []) atlist else atlist) ->
+                 In x (if onr then filter (fun a => mem_str a req) atlist else atlist)).
+  { destruct onr; [|tauto]. intros H. apply filter_In in H as [_ H]. cbn in H. discriminate. }
+  destruct b.
+  - destruct ks as [|k [|k2 ks']]; [tauto| |tauto].
+    destruct k as [|c k']; [tauto|].
+    destruct (mem_str (c :: k') ecs); [exact Hsel|tauto].
+  - destruct (forallb (fun k => mem_str k ecs) ks); [exact Hsel|tauto].
+Qed.
+
+Lemma post_ec_mono maps md rq x :
+  In x (post_entity_categories maps md []) -> In x (post_entity_categories maps md rq).
+Proof.
+  unfold post_entity_categories. destruct md as [m|]; [|tauto].
+  change (req_friendly []) with ([] : list str).
+  intros H. apply in_flat_map in H as [em [Hem H]]. apply in_flat_map in H as [row [Hrow H]].
+  apply in_flat_map. exists em; split; [exact Hem|]. apply in_flat_map. exists row; split; [exact Hrow|].
+  apply ec_attrs_mono; exact H.
+Qed.
+
+Lemma get_ec_empty_mono p sp md rq :
+  get_entity_categories p sp md rq = Ok [] -> get_entity_categories p sp md [] = Ok [].
+Proof.
+  unfold get_entity_categories. destruct (pget s_ec p sp) as [[maps|]|e]; cbn [bind]; [|tauto|tauto].
+  intros H; injection H as H. f_equal.
+  destruct (post_entity_categories maps md []) as [|x l] eqn:E; [reflexivity|].
+  assert (Hin : In x (post_entity_categories maps md rq)) by (apply post_ec_mono; rewrite E; left; reflexivity).
+  rewrite H in Hin. destruct Hin.
+Qed.
+
+Section Fix.
+  Variable matches : str -> str -> bool.
+  Variable lname : str -> str -> option str.
+
+  Lemma pfilter_missing_ec_empty p a sp md rq op :
+    pfilter matches lname p a sp md rq op = Err MissingValue -> get_entity_categories p sp md rq = Ok [].
+  Proof.
+    unfold pfilter.
+    destruct (get_entity_categories p sp md rq) as [ecr|e] eqn:Eec.
+    - destruct ecr as [|e0 ecr]; [reflexivity|]. cbn [bind].
+      destruct (get_attribute_restrictions p sp) as [ar|e] eqn:Ear; cbn [bind]; [discriminate|].
+      intros H; injection H as H. exfalso. subst e.
+      unfold get_attribute_restrictions, pget_ar in Ear.
+      destruct (pget s_ar p sp) as [v|e] eqn:Ep; cbn [bind] in Ear; [discriminate|].
+      injection Ear as Ear. apply pget_err in Ep. apply TypeError_not_MissingValue. congruence.
+    - cbn [bind]. intros H; injection H as H. exfalso. subst e.
+      unfold get_entity_categories in Eec.
+      destruct (pget s_ec p sp) as [v|e] eqn:Ep; cbn [bind] in Eec; [discriminate|].
+      injection Eec as Eec. apply pget_err in Ep. apply TypeError_not_MissingValue. congruence.
+  Qed.
+
+  Lemma restrict_missing_ec_empty p a sp md :
+    restrict matches lname p a sp md = Err MissingValue ->
+    get_entity_categories p sp md (fst (declared md)) = Ok [].
+  Proof.
+    unfold restrict, declared. destruct md as [m|]; [destruct (m_req m) as [[rq op]|]|]; cbn [fst];
+      apply pfilter_missing_ec_empty.
+  Qed.
+
+  (* SUGGESTED FIX of Server.setup_assertion (not the code that exists): on the swallowed
+     MissingValue re-run the policy with the SP's requirements treated as wishes *)
+  Definition setup_assertion_fixed (p : cpolicy) (identity : ava) (sp : str) (md : option mdview)
+             (best_effort : bool) : outcome :=
+    match apply_policy matches lname p identity sp md with
+    | Ok a => Asserted a
+    | Err e =>
+        if str_eqb e MissingValue then
+          if best_effort then
+            match pfilter matches lname p identity sp md [] (fst (declared md) ++ snd (declared md)) with
+            | Ok f => Asserted (narrow identity f)
+            | Err e' => Raised e'
+            end
+          else ErrorResponse
+        else Raised e
+    end.
+
+  Lemma setup_assertion_fixed_every_outcome p identity sp md b :
+    outcome_ok matches lname p sp md identity (setup_assertion_fixed p identity sp md b).
+  Proof.
+    unfold setup_assertion_fixed.
+    destruct (apply_policy matches lname p identity sp md) as [a|e] eqn:E.
+    - apply apply_policy_permitted in E; exact E.
+    - destruct (str_eqb e MissingValue) eqn:Ee; [|exact I]. destruct b; [|exact I].
+      apply str_eqb_eq in Ee; subst e.
+      assert (Hr : restrict matches lname p identity sp md = Err MissingValue).
+      { unfold apply_policy in E. destruct (restrict matches lname p identity sp md); [discriminate|exact E]. }
+      apply restrict_missing_ec_empty in Hr.
+      pose proof (get_ec_empty_mono _ _ _ _ Hr) as H0.
+      set (rq := fst (declared md)) in *. set (op := snd (declared md)) in *.
+      destruct (pfilter matches lname p identity sp md [] (rq ++ op)) as [f|e'] eqn:Ef; [|exact I].
+      apply pfilter_permitted in Ef.
+      assert (Hn : permitted_for matches lname p sp md [] (rq ++ op) identity (narrow identity f)).
+      { eapply permitted_for_incl; [|exact Ef]. intros x; apply narrow_sub. }
+      destruct Hn as [H1 [H2 [H3 H4]]].
+      unfold outcome_ok, permitted. fold rq op. split; [exact H1|]. split; [exact H2|]. split.
+      + intros allow Ha Hne. rewrite Hr in Ha. injection Ha as Ha. subst allow. exfalso; apply Hne; reflexivity.
+      + intros _ Hne n vs Hin. exact (H4 H0 Hne n vs Hin).
+  Qed.
+End Fix.
